@@ -241,7 +241,7 @@ func sha(b []byte) string { return fmt.Sprintf("%x", sha256.Sum256(b)) }
 
 func checkC14(r *Run) {
 	type mk = func() *descgen.Entry
-	reqs := []mk{descgen.K1, descgen.K9, descgen.K7, descgen.K4}
+	reqs := []mk{descgen.K1, descgen.K9, descgen.K7, descgen.K4, func() *descgen.Entry { return descgen.K11(3) }}
 	for _, n := range []string{"k5", "k9", "k8"} {
 		n := n
 		reqs = append(reqs, func() *descgen.Entry { return descgen.OptionVariant(descgen.CuratedByName(n), r.Seed, 1) })
@@ -273,7 +273,8 @@ func checkC14(r *Run) {
 				}
 				c.NameOverrides[o.Path], c.NameOverrides[o.Key] = fmt.Sprintf("by_path_%d", i), fmt.Sprintf("by_key_%d", i)
 				c.Validators[o.Path], c.Validators[o.Key] = []string{descgen.V(fmt.Sprintf("path%d", i))}, []string{descgen.V(fmt.Sprintf("key%d", i))}
-				c.PlanModifiers[o.Path], c.PlanModifiers[o.Key] = []string{descgen.PM(fmt.Sprintf("path%d", i))}, []string{descgen.PM(fmt.Sprintf("key%d", i))}
+				c.PlanModifiers[o.Path], c.PlanModifiers[o.Key] = []string{descgen.PM(fmt.Sprintf("path%da", i)), descgen.PM(fmt.Sprintf("path%db", i)), descgen.USFU}, []string{descgen.PM(fmt.Sprintf("key%d", i))}
+				c.UseStateForUnknown = true
 				c.RequiredFields = append(c.RequiredFields, o.Path)
 				c.ComputedFields = append(c.ComputedFields, o.Key)
 			}
